@@ -825,6 +825,7 @@ fc_statements = [
         arg_decl=[
             "type(C_PTR) :: {f_var}",
         ],
+        f_module=dict(iso_c_binding=["C_PTR"]),
     ),
     dict(
         # int **func(void)
@@ -833,6 +834,7 @@ fc_statements = [
         arg_decl=[
             "type(C_PTR) :: {f_var}",
         ],
+        f_module=dict(iso_c_binding=["C_PTR"]),
     ),
     
     dict(
@@ -964,6 +966,7 @@ fc_statements = [
         arg_decl=[
             "type(C_PTR) :: {f_var}",
         ],
+        f_module=dict(iso_c_binding=["C_PTR"]),
     ),
     #####
     dict(
